@@ -49,4 +49,10 @@ def c07_split(inp, obligation):
         bad += ["%s: %s" % (name, b) for b in _tiling_violations(parent, boxes, dim)]
         if any(k.coarseningValue != o.coarseningValue for k in kids):
             bad.append("%s: children changed the coarsening value" % name)
+        owners = [o] + list(kids)
+        for i_ in range(len(owners)):
+            for j_ in range(i_ + 1, len(owners)):
+                for attr in ("start", "end", "levelvec_dict"):
+                    if getattr(owners[i_], attr) is getattr(owners[j_], attr):
+                        bad.append("%s: two areas share one %s object (a later change of one silently changes the other)" % (name, attr))
     return bool(bad), {"start": start, "end": end, "violations": bad[:6]}
